@@ -14,7 +14,7 @@ import contextlib
 from pybufrkit.errors import PyBufrKitError, UnknownDescriptor
 from pybufrkit.coder import Coder, CoderState, BSRModifier
 from pybufrkit.tables import TableGroupKey, TableGroupCacheManager
-from pybufrkit.descriptors import Descriptor, ElementDescriptor
+from pybufrkit.descriptors import Descriptor, ElementDescriptor, AssociatedDescriptor, SkippedLocalDescriptor
 
 __all__ = ['loads_compiled_template', 'TemplateCompiler', 'CompiledTemplateManager', 'process_compiled_template']
 
@@ -84,6 +84,9 @@ class MethodCall(Statement):
         if len(self.args) > 0 and isinstance(self.args[0], Descriptor):
             d['args'] = (self.args[0].id,) + self.args[1:]
             d['with_descriptor'] = True
+            # The pseudo descriptors (associated field, skipped local descriptor) are
+            # not in any table: the class is needed to rebuild them on load.
+            d['descriptor_type'] = type(self.args[0]).__name__
         else:
             d['args'] = self.args
             d['with_descriptor'] = False
@@ -468,7 +471,12 @@ def load_state_method_call_from_dict(table_group, d):
 
 def load_method_call_from_dict(method_type, table_group, d):
     if d.get('with_descriptor', False):
-        descriptor = table_group.lookup(d['args'][0])
+        descriptor_type = PSEUDO_DESCRIPTOR_TYPES.get(d.get('descriptor_type'))
+        if descriptor_type is not None:
+            # process_codeflag(descriptor, nbits): the width is the second argument
+            descriptor = descriptor_type(d['args'][0], d['args'][1])
+        else:
+            descriptor = table_group.lookup(d['args'][0])
         args = tuple([descriptor] + d['args'][1:])
     else:
         args = tuple(d['args'])
@@ -482,6 +490,11 @@ def load_method_call_from_dict(method_type, table_group, d):
                        args=args,
                        state_properties=state_properties)
 
+
+PSEUDO_DESCRIPTOR_TYPES = {
+    'AssociatedDescriptor': AssociatedDescriptor,
+    'SkippedLocalDescriptor': SkippedLocalDescriptor,
+}
 
 STATEMENT_LOAD_FUNCS = {
     'Loop': load_loop_from_dict,
